@@ -425,6 +425,9 @@ class ScriptGen:
 def gen_history(L, K, rng, nsteps, allow_overlap=False):
     """single-vector history: construction, emplace_back, pop_back, erase, clear, reserve"""
     g = ScriptGen(L, K, rng, allow_overlap=allow_overlap)
+    if rng.random() < 0.2:
+        g.lines.append("pagemode 2")
+        g.stat("fence-pages")
     g.op_mkvec(0)
     ops = [(g.op_emplace, 10), (g.op_popback, 2), (g.op_erase, 3), (g.op_eraserange, 2), (g.op_clear, 1), (g.op_reserve, 3)]
     tot = sum(w for _, w in ops)
@@ -816,6 +819,11 @@ def gen_compare(L, K, rng):
     empty / different fixed sizes), built under different junk fills, capacities and
     allocators; then every operator on every pair of vectors and on pairs of elements"""
     g = ScriptGen(L, K, rng, domain=rng.choice([2, 3]))
+    if rng.random() < 0.4:
+        # every block flush against an inaccessible page: a comparison that READS behind the
+        # smaller operand's block faults (seeded change C02h)
+        g.lines.append("pagemode 2")
+        g.stat("fence-pages")
     nf = nfixed(L)
     fixed0 = [rng.choice([0, 1, 2, 2, 3]) for _ in range(nf)]
     if nf == len(L) and rng.random() < 0.2:
